@@ -136,8 +136,13 @@ def rules_r1(ctx):
     else:
         r1.ok('who-calls|clear_frames', detail=callers)
 
-    # R1b: a taken debug hook is put back
-    r1b = ctx.rule('C01.R1b', 'Runtime.debug taken with Option::take is re-assigned on every exit', floor=2, floor_what='functions taking the hook')
+    rule_debug_take_restore(ctx, 'C01.R1b')
+
+
+def rule_debug_take_restore(ctx, rid):
+    """a debug hook taken from Runtime.debug is put back on every exit (shared with C17)"""
+    fx = ctx.fx
+    r1b = ctx.rule(rid, 'Runtime.debug taken with Option::take is re-assigned on every exit', floor=2, floor_what='functions taking the hook')
     take = re.compile(r'Option::<.*>::take$')
 
     def is_debug_field(f):
@@ -174,7 +179,7 @@ def rules_r1(ctx):
                     continue
                 callee, cb = last_fallible_call(fn, path)
                 r1b.bad('exit|%s|%s' % (_short(k), (callee or '?').split('::')[-1]),
-                        'the debug hook taken from Runtime.debug is not restored when %s fails: debugging is silently lost for the rest of the run' % (callee or 'the function returns early'),
+                        'the debug hook taken from Runtime.debug is not restored when %s: debugging is silently lost for the rest of the run' % (('%s fails' % callee) if callee else 'the function returns early'),
                         loc=fn.loc(cb if cb is not None else eb), witness={'path_lines': fn.path_lines(path)[-12:]})
 
 
